@@ -217,7 +217,7 @@ def fault_family(c, exe_go, n, sweep, only=None):
     flags = ["-flt"] + (["-sweep"] if sweep else [])
     if only is not None:
         lines = []
-        for f in only[:30]:
+        for f in only[:8]:
             rc, o, e = V.sh([exe_go] + flags + ["-worker", "-first", str(f), "-n", "1"], timeout=900)
             lines.append(o)
         open(impl, "w").write("".join(lines))
@@ -343,7 +343,7 @@ def main(tier, replay=None):
     if mst is None:
         return c.finish(TRUSTED, no_input_break=mcorr[0])
     # the fault family
-    nf = 24 if tier == "quick" else 8
+    nf = 16 if tier == "quick" else 8
     if c.escalated and tier == "quick":
         nf *= 2
     fst, fbrk, fherr = fault_family(c, outs[0], nf, tier != "quick", only=(ffirsts if replay else None))
